@@ -109,9 +109,25 @@ func H_C02_plan_tree1() {
 	nd.Reach("end")
 }
 
-//verif:harness props=C02,C20 tier=thorough bounds="planner ranges for every criteria tree of depth <= 2 over comparison leaves on x (literals nil/float{-1.5,0,2.5}) and index {x}; document field absent/nil/float64"
+func genSmallTree(name string, depth int, ops []int, o ref.Opts) *ref.Crit {
+	n := 4
+	if depth == 0 {
+		n = 1
+	}
+	switch nd.Choice(name+".node", n) {
+	case 1:
+		return &ref.Crit{Op: ref.OpNot, A: genSmallTree(name+"n", depth-1, ops, o)}
+	case 2:
+		return &ref.Crit{Op: ref.OpAnd, A: genSmallTree(name+"l", depth-1, ops, o), B: genSmallTree(name+"r", depth-1, ops, o)}
+	case 3:
+		return &ref.Crit{Op: ref.OpOr, A: genSmallTree(name+"l", depth-1, ops, o), B: genSmallTree(name+"r", depth-1, ops, o)}
+	}
+	return &ref.Crit{Op: ops[nd.Choice(name+".op", len(ops))], Field: "x", Val: ref.Value(name+".v", o)}
+}
+
+//verif:harness props=C02,C20 tier=thorough bounds="planner ranges for every criteria tree of depth <= 2 over leaves x Eq/Gt/LtEq literal with literals nil/0.0, index {x}; document field absent/nil/float64 (symbolic)"
 func H_C02_plan_tree2() {
-	crit := genPlanTree("c", 2, []string{"x"}, planVal2, false)
+	crit := genSmallTree("c", 2, []int{ref.OpEq, ref.OpGt, ref.OpLtEq}, ref.Opts{Kinds: ref.KNil | ref.KFloat, ConcFloats: true, OneFloat: true})
 	planSound(crit, []string{"x"}, genFields("d", planDoc2, "x"))
 	nd.Reach("end")
 }
